@@ -22,12 +22,13 @@ static const pixman_op_t d_ops[6] = { PIXMAN_OP_SRC, PIXMAN_OP_OVER, PIXMAN_OP_A
 static const char *d_opname[6] = { "SRC", "OVER", "ADD", "IN", "OUT_REVERSE", "XOR" };
 static const pixman_format_code_t d_dfmt[3] = { PIXMAN_a8r8g8b8, PIXMAN_a8, PIXMAN_r5g6b5 };
 static const char *d_dfmtname[3] = { "a8r8g8b8", "a8", "r5g6b5" };
-static const pixman_format_code_t d_gf[3] = { PIXMAN_a1, PIXMAN_a8, PIXMAN_a8r8g8b8 };
-static const char *d_gfname[3] = { "a1", "a8", "a8r8g8b8" };
-/* format of glyph i under format combination c: all a1, all a8, all argb, mixed (a8, argb, a1), mixed-A (a1, a8, a1) */
-#define D_NCOMBO 5
-static int d_combo_fmt(int c, int i) { static const int t[D_NCOMBO][3] = { { 0, 0, 0 }, { 1, 1, 1 }, { 2, 2, 2 }, { 1, 2, 0 }, { 0, 1, 0 } }; return t[c][i]; }
-static const char *d_comboname[D_NCOMBO] = { "a1", "a8", "a8r8g8b8", "mixed(a8,argb,a1)", "mixed(a1,a8,a1)" };
+static const pixman_format_code_t d_gf[4] = { PIXMAN_a1, PIXMAN_a8, PIXMAN_a8r8g8b8, PIXMAN_a8r8g8b8_sRGB };
+static const char *d_gfname[4] = { "a1", "a8", "a8r8g8b8", "a8r8g8b8_sRGB" };
+/* format of glyph i under format combination c: all a1, all a8, all argb, mixed (a8, argb, a1), mixed-A (a1, a8, a1); and, for the
+ * no_mask entry point only (the hand-made mask model is 8-bit linear), all a8r8g8b8_sRGB and mixed (a8, sRGB, a1) */
+#define D_NCOMBO 7
+static int d_combo_fmt(int c, int i) { static const int t[D_NCOMBO][3] = { { 0, 0, 0 }, { 1, 1, 1 }, { 2, 2, 2 }, { 1, 2, 0 }, { 0, 1, 0 }, { 3, 3, 3 }, { 1, 3, 0 } }; return t[c][i]; }
+static const char *d_comboname[D_NCOMBO] = { "a1", "a8", "a8r8g8b8", "mixed(a8,argb,a1)", "mixed(a1,a8,a1)", "a8r8g8b8_sRGB", "mixed(a8,sRGB,a1)" };
 static const int d_gsize[3][2] = { { 3, 3 }, { 5, 2 }, { 2, 4 } };
 static const int d_gorigin[3][2] = { { 0, 0 }, { 1, 2 }, { -1, 1 } };
 #define D_NCLIP 4
@@ -112,6 +113,7 @@ static void d_case(uint64_t idx, void *vctx)
     vf_decode(idx, dims, nd, v);
     int api = v[0], opi = v[1], srck = v[2], dfi = v[3], offi = v[4], clip = v[5], combo = v[6];
     int pos[3] = { 0, 0, 0 }; for (int i = 0; i < n; i++) pos[i] = v[7 + i];
+    if (combo >= 5 && api != 0) return;
     pixman_op_t op = d_ops[opi]; pixman_format_code_t df = d_dfmt[dfi];
     int dest_x = d_off[offi][0], dest_y = d_off[offi][1], src_x = d_off[offi][2], src_y = d_off[offi][3];
 
@@ -124,7 +126,7 @@ static void d_case(uint64_t idx, void *vctx)
     uint32_t gbuf[3][16]; pixman_image_t *gimg[3] = { 0, 0, 0 }; int gfi[3]; int gsw[3];
     for (int i = 0; i < n; i++) {
         gfi[i] = d_combo_fmt(combo, i); pixman_format_code_t f = d_gf[gfi[i]]; int w = d_gsize[i][0], h = d_gsize[i][1];
-        gsw[i] = f == PIXMAN_a8r8g8b8 ? w : (f == PIXMAN_a8 ? 2 : 1);
+        gsw[i] = PIXMAN_FORMAT_BPP(f) == 32 ? w : (f == PIXMAN_a8 ? 2 : 1);
         memset(gbuf[i], 0, sizeof gbuf[i]);
         for (int y = 0; y < h; y++) for (int x = 0; x < w; x++) d_put(gbuf[i], gsw[i], f, x, y, d_glyph_pix(i, gfi[i], x, y));
         gimg[i] = pixman_image_create_bits(f, w, h, gbuf[i], gsw[i] * 4);
